@@ -21,7 +21,7 @@ import sys
 from pathlib import Path
 
 POL = "src/redress/policy/"
-FILES = {"wrappers": POL + "wrappers.py", "context": POL + "context.py", "retry_sync": POL + "retry_sync.py",
+FILES = {"decorator": POL + "decorator.py", "wrappers": POL + "wrappers.py", "context": POL + "context.py", "retry_sync": POL + "retry_sync.py",
          "retry_async": POL + "retry_async.py", "policy": POL + "policy.py", "async_policy": POL + "async_policy.py",
          "config": "src/redress/config.py"}
 
@@ -54,6 +54,15 @@ SITES = [
      ("context", "_AsyncPolicyContext", None)),
     ("policy.Policy.call", "policy", "Policy", "call", "kwonly", ("retry_sync", "Retry", "call")),
     ("async_policy.AsyncPolicy.call", "async_policy", "AsyncPolicy", "call", "kwonly", ("retry_async", "AsyncRetry", "call")),
+]
+
+
+# the four forwarding calls inside the `@retry` closure: (site, dotted callee as written, where the options come from)
+DECO_SITES = [
+    ("decorator.retry.RetryPolicy()", "RetryPolicy", ("init", "wrappers", "RetryPolicy")),
+    ("decorator.retry.AsyncRetryPolicy()", "AsyncRetryPolicy", ("init", "wrappers", "AsyncRetryPolicy")),
+    ("decorator.retry.policy.call", "policy.call", ("call", "wrappers", "RetryPolicy")),
+    ("decorator.retry.async_policy.call", "async_policy.call", ("call", "wrappers", "AsyncRetryPolicy")),
 ]
 
 
@@ -125,6 +134,28 @@ def extract(repo: Path) -> tuple[list[dict], dict]:
                       "callee": _dotted(call.func), "positional": [_val(a) for a in call.args],
                       "keywords": [(k.arg or "**", _val(k.value)) for k in call.keywords],
                       "line": call.lineno, "file": FILES[mod]})
+    # the @retry decorator (a module-level function with nested closures)
+    decos = [n for n in trees["decorator"].body if isinstance(n, ast.FunctionDef) and n.name == "retry"
+             and not any(_dotted(d) in ("overload", "typing.overload") for d in n.decorator_list)]
+    if len(decos) != 1:
+        raise ExtractError(f"decorator.retry: expected one implementation, found {len(decos)}")
+    deco = decos[0]
+    retry_opts = _kwonly(deco)
+    for name, callee, (kind, cmod, ccls) in DECO_SITES:
+        c = _find_class(trees[cmod], ccls)
+        if kind == "init":
+            options = _kwonly(_find_func(c, "__init__"))
+        else:
+            init_opts = _kwonly(_find_func(c, "__init__"))      # those travel through the constructor
+            options = [p for p in _kwonly(_find_func(c, "call")) if p in retry_opts and p not in init_opts]
+        calls = [n for n in ast.walk(deco) if isinstance(n, ast.Call) and _dotted(n.func) == callee]
+        if len(calls) != 1:
+            raise ExtractError(f"{name}: expected exactly one call of `{callee}` inside retry(), found {len(calls)}")
+        call = calls[0]
+        sites.append({"name": name, "options": options, "calleeOptions": [p for p in options if p in retry_opts],
+                      "callee": callee, "positional": [_val(a) for a in call.args],
+                      "keywords": [(k.arg or "**", _val(k.value)) for k in call.keywords],
+                      "line": call.lineno, "file": FILES["decorator"]})
     return sites, hashes
 
 
@@ -146,7 +177,7 @@ def render(sites: list[dict], hashes: dict) -> str:
             "open Redress.Forwarding", ""]
     names = []
     for i, s in enumerate(sites):
-        ident = "site_" + s["name"].replace(".", "_")
+        ident = "site_" + s["name"].replace(".", "_").replace("()", "_ctor")
         names.append(ident)
         out.append(f"/-- `{s['name']}` ({s['file']}, line {s['line']}) -/")
         out.append(f"def {ident} : Site :=")
